@@ -375,6 +375,10 @@ void StateMachine::Impl::stop()
         return;
     }
 
+    //! 如果当前状态有正在运行的子状态机，先停止它，保证内层状态先退出
+    if (curr_state_->sub_sm != nullptr)
+        curr_state_->sub_sm->stop();
+
     ++cb_level_;
     if (curr_state_->exit_action)
         curr_state_->exit_action(Event());
